@@ -95,6 +95,20 @@ def main():
                         f"B item{i}_{k} value{k % 7}\n" if k % 5 else f"E end{k}\n")
         paths.append(p)
     target = paths[plan['file']] if plan['kind'] != 'none' else None
+    good_bytes = None
+    if plan['kind'] == 'corrupt':
+        # a NATURAL fault: the gzip file itself is damaged (bad CRC / truncated / trailing junk)
+        with open(target, 'rb') as f:
+            good_bytes = f.read()
+        bad = bytearray(good_bytes)
+        if plan['how'] == 'crc':
+            bad[-6] ^= 0xff
+        elif plan['how'] == 'trunc':
+            bad = bad[:len(bad) // 2]
+        else:
+            bad += b'trailing junk that is not a gzip member'
+        with open(target, 'wb') as f:
+            f.write(bytes(bad))
     fired = os.path.join(tmp, '_fired')
     state = {'path': None, 'in_alloc': False, 'in_sync': False, 'count': {}}
 
@@ -298,6 +312,7 @@ def main():
         report(stage='leftovers2', **leftovers())
         faulthandler.cancel_dump_traceback_later()
         report(stage='end')
+        core.cov_save()
         os._exit(0)
 
     report(stage='start', plan=plan)
@@ -312,9 +327,12 @@ def main():
     except BaseException as e:  # pylint: disable=broad-except
         out1 = {'outcome': 'other:' + type(e).__name__}
     out1['latency'] = round(time.monotonic() - t0, 2)
-    out1['fired'] = os.path.exists(fired)
+    out1['fired'] = os.path.exists(fired) or plan['kind'] == 'corrupt'
     report(stage='run1', **out1)
     report(stage='leftovers1', **leftovers())
+    if good_bytes is not None:
+        with open(target, 'wb') as f:          # the file is repaired before the second run
+            f.write(good_bytes)
     # a fresh run in the same process, no fault
     plan['kind'] = 'none'
     target = None
@@ -330,6 +348,7 @@ def main():
     report(stage='leftovers2', **leftovers())
     faulthandler.cancel_dump_traceback_later()
     report(stage='end')
+    core.cov_save()
     os._exit(0)
 
 
